@@ -24,3 +24,357 @@ Lemma server_port_refuted_lemma :
 Proof.
   exists w_server_files. split; [vm_compute; reflexivity | vm_compute; discriminate].
 Qed.
+
+(* ================= association lists ================= *)
+Lemma str_eqb_false k k' : str_eqb k k' = false <-> k <> k'.
+Proof.
+  split; intros H.
+  - intros ->. rewrite str_eqb_refl in H. discriminate.
+  - destruct (str_eqb k k') eqn:E; auto. apply str_eqb_eq in E. contradiction.
+Qed.
+
+Lemma dget_dset_same k v d : dget k (dset k v d) = Some v.
+Proof.
+  induction d as [|[k0 v0] r IH]; simpl.
+  - rewrite str_eqb_refl. reflexivity.
+  - destruct (str_eqb k k0) eqn:E; simpl.
+    + rewrite str_eqb_refl. reflexivity.
+    + rewrite E. exact IH.
+Qed.
+
+Lemma dget_dset_other k k' v d : k' <> k -> dget k' (dset k v d) = dget k' d.
+Proof.
+  intros N. induction d as [|[k0 v0] r IH]; simpl.
+  - apply str_eqb_false in N. rewrite N. reflexivity.
+  - destruct (str_eqb k k0) eqn:E; simpl.
+    + apply str_eqb_eq in E. subst k0. apply str_eqb_false in N. rewrite N. reflexivity.
+    + rewrite IH. reflexivity.
+Qed.
+
+Lemma dget_ddel_same k d : dget k (ddel k d) = None.
+Proof.
+  induction d as [|[k0 v0] r IH]; simpl; auto.
+  destruct (str_eqb k k0) eqn:E; simpl; auto. rewrite E. exact IH.
+Qed.
+
+Lemma dget_ddel_other k k' d : k' <> k -> dget k' (ddel k d) = dget k' d.
+Proof.
+  intros N. induction d as [|[k0 v0] r IH]; simpl; auto.
+  destruct (str_eqb k k0) eqn:E; simpl.
+  - apply str_eqb_eq in E. subst k0. apply str_eqb_false in N. rewrite N. exact IH.
+  - rewrite IH. reflexivity.
+Qed.
+
+Lemma dget_In k v d : dget k d = Some v -> In (k, v) d.
+Proof.
+  induction d as [|[k0 v0] r IH]; simpl; intros H; try discriminate.
+  destruct (str_eqb k k0) eqn:E.
+  - apply str_eqb_eq in E. inversion H; subst. left; reflexivity.
+  - right. auto.
+Qed.
+
+Lemma dget_notin k d : ~ In k (map fst d) -> dget k d = None.
+Proof.
+  induction d as [|[k0 v0] r IH]; simpl; intros H; auto.
+  destruct (str_eqb k k0) eqn:E.
+  - apply str_eqb_eq in E. subst. exfalso. apply H. left; reflexivity.
+  - apply IH. intros X. apply H. right; exact X.
+Qed.
+
+Lemma In_dget k v d : NoDup (map fst d) -> In (k, v) d -> dget k d = Some v.
+Proof.
+  induction d as [|[k0 v0] r IH]; simpl; intros ND H; [contradiction|].
+  inversion ND; subst. destruct H as [H|H].
+  - inversion H; subst. rewrite str_eqb_refl. reflexivity.
+  - destruct (str_eqb k k0) eqn:E.
+    + apply str_eqb_eq in E. subst. exfalso. apply H2. apply (in_map fst) in H. exact H.
+    + auto.
+Qed.
+
+Lemma In_dset k v d k' v' : In (k', v') (dset k v d) -> (k', v') = (k, v) \/ In (k', v') d.
+Proof.
+  induction d as [|[k0 v0] r IH]; simpl; intros H.
+  - destruct H as [H|[]]. left; auto.
+  - destruct (str_eqb k k0) eqn:E; simpl in H.
+    + destruct H as [H|H]; [left; auto | right; right; exact H].
+    + destruct H as [H|H]; [right; left; exact H|]. destruct (IH H); auto.
+Qed.
+
+Lemma In_ddel k d k' v' : In (k', v') (ddel k d) -> In (k', v') d.
+Proof.
+  induction d as [|[k0 v0] r IH]; simpl; intros H; auto.
+  destruct (str_eqb k k0) eqn:E; simpl in H.
+  - right; auto.
+  - destruct H as [H|H]; [left; exact H | right; auto].
+Qed.
+
+Lemma keys_dset k v d k' : In k' (map fst (dset k v d)) -> k' = k \/ In k' (map fst d).
+Proof.
+  intros H. apply in_map_iff in H as [[a b] [E H]]. simpl in E. subst a.
+  apply In_dset in H as [H|H]; [inversion H; auto|]. right. apply (in_map fst) in H. exact H.
+Qed.
+
+Lemma nodup_dset k v d : NoDup (map fst d) -> NoDup (map fst (dset k v d)).
+Proof.
+  induction d as [|[k0 v0] r IH]; simpl; intros ND.
+  - constructor; [intros []| constructor].
+  - inversion ND; subst. destruct (str_eqb k k0) eqn:E; simpl.
+    + apply str_eqb_eq in E. subst. constructor; assumption.
+    + constructor; auto. intros X. apply keys_dset in X as [X|X]; auto.
+      subst. rewrite str_eqb_refl in E. discriminate.
+Qed.
+
+Lemma nodup_ddel k d : NoDup (map fst d) -> NoDup (map fst (ddel k d)).
+Proof.
+  induction d as [|[k0 v0] r IH]; simpl; intros ND; auto.
+  inversion ND; subst. destruct (str_eqb k k0) eqn:E; simpl; auto.
+  constructor; auto. intros X. apply in_map_iff in X as [[a b] [Ea X]]. simpl in Ea; subst a.
+  apply In_ddel in X. apply H1. apply (in_map fst) in X. exact X.
+Qed.
+
+(* ================= recursive_update, one level at a time ================= *)
+Definition step (inc : bool) (k : pystr) (v : json) (t : dict) : res dict :=
+  match v with
+  | JObj _ =>
+      let sub := match dget k t with Some s => s | None => JObj [] end in
+      do s' <- rupd inc v sub;
+      Ok (if negb inc && negb (truthy s') then ddel k t else dset k s' t)
+  | JNull => Ok (if inc then dset k v t else ddel k t)
+  | _ => Ok (dset k v t)
+  end.
+
+Lemma rupd_nil inc t : rupd inc (JObj []) t = Ok t.
+Proof. reflexivity. Qed.
+
+Lemma rupd_cons inc k v rest t :
+  rupd inc (JObj ((k, v) :: rest)) (JObj t) = (do t' <- step inc k v t; rupd inc (JObj rest) (JObj t')).
+Proof. destruct v; reflexivity. Qed.
+
+Definition sub_or_empty (old : option json) : json := match old with Some s => s | None => JObj [] end.
+
+Section Level.
+  Variable SubOk : json -> Prop.
+  Variable isdictkey : pystr -> bool.
+  Hypothesis sub_closed : forall v s, SubOk v -> SubOk s -> exists r, rupd false v s = Ok r /\ SubOk r.
+  Hypothesis sub_empty : SubOk (JObj []).
+  Hypothesis sub_dict : forall v, SubOk v -> exists d, v = JObj d.
+
+  Definition shape (d : dict) : Prop :=
+    forall k v, In (k, v) d -> if isdictkey k then SubOk v else nondict v = true.
+  Definition InvL (d : dict) : Prop := NoDup (map fst d) /\ shape d.
+
+  Definition FL (k : pystr) (v : json) (old : option json) : option json :=
+    if isdictkey k then
+      match rupd false v (sub_or_empty old) with
+      | Ok s' => if truthy s' then Some s' else None
+      | Err _ => None
+      end
+    else match v with JNull => None | _ => Some v end.
+
+  Lemma shape_dset k v d : shape d -> (if isdictkey k then SubOk v else nondict v = true) -> shape (dset k v d).
+  Proof. intros S H k' v' I. apply In_dset in I as [I|I]; [inversion I; subst; exact H | apply S; exact I]. Qed.
+
+  Lemma shape_ddel k d : shape d -> shape (ddel k d).
+  Proof. intros S k' v' I. apply In_ddel in I. apply S; exact I. Qed.
+
+  Lemma step_level k v t :
+    (if isdictkey k then SubOk v else nondict v = true) -> InvL t ->
+    exists t', step false k v t = Ok t' /\ InvL t' /\ dget k t' = FL k v (dget k t) /\
+               forall k', k' <> k -> dget k' t' = dget k' t.
+  Proof.
+    intros G [ND S]. unfold FL. destruct (isdictkey k) eqn:DK.
+    - destruct (sub_dict _ G) as [dv ->].
+      assert (SO : SubOk (sub_or_empty (dget k t))).
+      { destruct (dget k t) eqn:E; simpl; auto. apply dget_In in E. apply S in E. rewrite DK in E. exact E. }
+      destruct (sub_closed _ _ G SO) as [r [R RO]].
+      unfold step. fold (sub_or_empty (dget k t)). rewrite R. simpl.
+      destruct (truthy r) eqn:TR; simpl.
+      + exists (dset k r t). repeat split.
+        * apply nodup_dset; exact ND.
+        * apply shape_dset; auto. rewrite DK. exact RO.
+        * apply dget_dset_same.
+        * intros k' N. apply dget_dset_other; exact N.
+      + exists (ddel k t). repeat split.
+        * apply nodup_ddel; exact ND.
+        * apply shape_ddel; exact S.
+        * apply dget_ddel_same.
+        * intros k' N. apply dget_ddel_other; exact N.
+    - destruct v; simpl in G; try discriminate; simpl;
+        try (eexists; repeat split;
+             [ apply nodup_dset; exact ND
+             | apply shape_dset; auto; rewrite DK; reflexivity
+             | apply dget_dset_same
+             | intros k' N; apply dget_dset_other; exact N ]).
+      exists (ddel k t). repeat split.
+      + apply nodup_ddel; exact ND.
+      + apply shape_ddel; exact S.
+      + apply dget_ddel_same.
+      + intros k' N. apply dget_ddel_other; exact N.
+  Qed.
+
+  Lemma level : forall n t, InvL n -> InvL t ->
+    exists r, rupd false (JObj n) (JObj t) = Ok (JObj r) /\ InvL r /\
+              forall k, dget k r = match dget k n with Some v => FL k v (dget k t) | None => dget k t end.
+  Proof.
+    induction n as [|[k v] rest IH]; intros t [NDn Sn] It.
+    - exists t. rewrite rupd_nil. repeat split; try apply It. 
+    - inversion NDn; subst.
+      assert (G : if isdictkey k then SubOk v else nondict v = true) by (apply Sn; left; reflexivity).
+      destruct (step_level k v t G It) as [t' [St [It' [Hk Ho]]]].
+      assert (Ir : InvL rest) by (split; [assumption | intros a b I; apply Sn; right; exact I]).
+      destruct (IH t' Ir It') as [r [R [Irr Hr]]].
+      exists r. rewrite rupd_cons, St. simpl. split; [exact R|]. split; [exact Irr|].
+      intros q. rewrite Hr. simpl. destruct (str_eqb q k) eqn:E.
+      + apply str_eqb_eq in E. subst q. rewrite (dget_notin k rest H1). exact Hk.
+      + apply str_eqb_false in E. rewrite (Ho q E). reflexivity.
+  Qed.
+End Level.
+
+(* ---------- lifting a getter through one dict-valued key ---------- *)
+Definition getk (k : pystr) (G : dict -> option json) (d : dict) : option json :=
+  match dget k d with Some (JObj s) => G s | _ => None end.
+
+Definition FLdict (v : json) (old : option json) : option json :=
+  match rupd false v (sub_or_empty old) with
+  | Ok s' => if truthy s' then Some s' else None
+  | Err _ => None
+  end.
+
+Lemma ov_none x : ov None x = x.
+Proof. reflexivity. Qed.
+
+Lemma lift_get (SubOk : json -> Prop) (G : dict -> option json) k n t r :
+  G [] = None ->
+  SubOk (JObj []) ->
+  (forall v, SubOk v -> exists d, v = JObj d) ->
+  (forall i j, SubOk (JObj i) -> SubOk (JObj j) ->
+     exists s', rupd false (JObj i) (JObj j) = Ok (JObj s') /\ G s' = ov (G i) (G j)) ->
+  (forall v, dget k n = Some v -> SubOk v) ->
+  (forall v, dget k t = Some v -> SubOk v) ->
+  dget k r = match dget k n with Some v => FLdict v (dget k t) | None => dget k t end ->
+  getk k G r = ov (getk k G n) (getk k G t).
+Proof.
+  intros G0 E0 SD Hsub Hn Ht Hr. unfold getk. rewrite Hr.
+  destruct (dget k n) as [v|] eqn:En; [|reflexivity].
+  destruct (SD v (Hn v eq_refl)) as [i ->].
+  assert (Si := Hn _ eq_refl).
+  assert (X : exists j, sub_or_empty (dget k t) = JObj j /\ SubOk (JObj j) /\
+                        match dget k t with Some (JObj s) => G s | _ => None end = G j).
+  { destruct (dget k t) as [w|] eqn:Et; simpl.
+    - destruct (SD w (Ht w eq_refl)) as [j ->]. exists j. repeat split; auto.
+    - exists []. repeat split; auto. }
+  destruct X as [j [Ej [Sj Gj]]]. rewrite Gj.
+  destruct (Hsub i j Si Sj) as [s' [R Gs]].
+  unfold FLdict. rewrite Ej, R.
+  destruct s' as [|x xs]; simpl.
+  - rewrite <- Gs. symmetry. exact G0.
+  - exact Gs.
+Qed.
+
+(* ---------- level 3: a mapping path -> non-dict value (the 'Ignore' mapping) ---------- *)
+Definition Inv3 : dict -> Prop := InvL (fun v => v = JObj []) (fun _ => false).
+Definition okflat (j : json) : Prop := exists d, j = JObj d /\ Inv3 d.
+
+Lemma ov_some v x : ov (Some v) x = match v with JNull => None | _ => Some v end.
+Proof. destruct v; reflexivity. Qed.
+
+Lemma level3 n t : Inv3 n -> Inv3 t ->
+  exists r, rupd false (JObj n) (JObj t) = Ok (JObj r) /\ Inv3 r /\ forall p, dget p r = ov (dget p n) (dget p t).
+Proof.
+  intros In_ It.
+  assert (C : forall v s : json, v = JObj [] -> s = JObj [] -> exists r, rupd false v s = Ok r /\ r = JObj []).
+  { intros v s -> ->. exists (JObj []). split; reflexivity. }
+  assert (D : forall v : json, v = JObj [] -> exists d, v = JObj d).
+  { intros v ->. exists []. reflexivity. }
+  destruct (level (fun v => v = JObj []) (fun _ => false) C eq_refl D n t In_ It) as [r [R [Ir H]]].
+  exists r. split; [exact R|]. split; [exact Ir|]. intros p. rewrite H. unfold FL.
+  destruct (dget p n); [rewrite ov_some; reflexivity | reflexivity].
+Qed.
+
+Lemma inv3_nil : Inv3 [].
+Proof. split; [constructor | intros k v []]. Qed.
+
+Lemma okflat_closed v s : okflat v -> okflat s -> exists r, rupd false v s = Ok r /\ okflat r.
+Proof.
+  intros [i [-> Ii]] [j [-> Ij]]. destruct (level3 i j Ii Ij) as [r [R [Ir _]]].
+  exists (JObj r). split; auto. exists r. split; auto.
+Qed.
+
+(* ---------- level 2: a section (option -> non-dict value, 'Ignore' -> level 3) ---------- *)
+Definition isIgn (k : pystr) : bool := str_eqb k kIgnore.
+Definition Inv2 : dict -> Prop := InvL okflat isIgn.
+Definition oksec (j : json) : Prop := exists d, j = JObj d /\ Inv2 d.
+
+Lemma okflat_dict v : okflat v -> exists d, v = JObj d.
+Proof. intros [d [-> _]]. eauto. Qed.
+
+Lemma okflat_nil : okflat (JObj []).
+Proof. exists []. split; auto. apply inv3_nil. Qed.
+
+Lemma inv2_get_ign d v : Inv2 d -> dget kIgnore d = Some v -> okflat v.
+Proof.
+  intros [_ S] H. apply dget_In in H. apply S in H. unfold isIgn in H. rewrite str_eqb_refl in H. exact H.
+Qed.
+
+Lemma level2 n t : Inv2 n -> Inv2 t ->
+  exists r, rupd false (JObj n) (JObj t) = Ok (JObj r) /\ Inv2 r /\
+    (forall o, o <> kIgnore -> dget o r = ov (dget o n) (dget o t)) /\
+    (forall p, getk kIgnore (dget p) r = ov (getk kIgnore (dget p) n) (getk kIgnore (dget p) t)).
+Proof.
+  intros In_ It.
+  destruct (level okflat isIgn okflat_closed okflat_nil okflat_dict n t In_ It) as [r [R [Ir H]]].
+  exists r. repeat split; try apply Ir; auto.
+  - intros o N. rewrite H. unfold FL, isIgn. apply str_eqb_false in N. rewrite N.
+    destruct (dget o n); [rewrite ov_some; reflexivity | reflexivity].
+  - intros p. apply (lift_get okflat (dget p)); auto using okflat_nil, okflat_dict.
+    + intros i j [i' [Ei Ii]] [j' [Ej Ij]]. inversion Ei; inversion Ej; subst i' j'.
+      destruct (level3 i j Ii Ij) as [s' [R' [_ Hs]]]. exists s'. split; auto.
+    + intros v. apply inv2_get_ign; exact In_.
+    + intros v. apply inv2_get_ign; exact It.
+    + rewrite H. unfold FL, isIgn. rewrite str_eqb_refl. reflexivity.
+Qed.
+
+Lemma inv2_nil : Inv2 [].
+Proof. split; [constructor | intros k v []]. Qed.
+
+Lemma oksec_nil : oksec (JObj []).
+Proof. exists []. split; auto. apply inv2_nil. Qed.
+
+Lemma oksec_dict v : oksec v -> exists d, v = JObj d.
+Proof. intros [d [-> _]]. eauto. Qed.
+
+Lemma oksec_closed v s : oksec v -> oksec s -> exists r, rupd false v s = Ok r /\ oksec r.
+Proof.
+  intros [i [-> Ii]] [j [-> Ij]]. destruct (level2 i j Ii Ij) as [r [R [Ir _]]].
+  exists (JObj r). split; auto. exists r. split; auto.
+Qed.
+
+(* ---------- level 1: a file / the disk configuration (section -> level 2) ---------- *)
+Definition Inv1 : dict -> Prop := InvL oksec (fun _ => true).
+
+Definition get3 (S p : pystr) (d : dict) : option json := getk S (getk kIgnore (dget p)) d.
+
+Lemma inv1_get d S v : Inv1 d -> dget S d = Some v -> oksec v.
+Proof. intros [_ Sh] H. apply dget_In in H. apply Sh in H. exact H. Qed.
+
+Lemma level1 f t : Inv1 f -> Inv1 t ->
+  exists r, rupd false (JObj f) (JObj t) = Ok (JObj r) /\ Inv1 r /\
+    (forall S o, o <> kIgnore -> getk S (dget o) r = ov (getk S (dget o) f) (getk S (dget o) t)) /\
+    (forall S p, get3 S p r = ov (get3 S p f) (get3 S p t)).
+Proof.
+  intros If It.
+  destruct (level oksec (fun _ => true) oksec_closed oksec_nil oksec_dict f t If It) as [r [R [Ir H]]].
+  exists r. repeat split; try apply Ir; auto.
+  - intros S o N. apply (lift_get oksec (dget o)); auto using oksec_nil, oksec_dict.
+    + intros i j [i' [Ei Ii]] [j' [Ej Ij]]. inversion Ei; inversion Ej; subst i' j'.
+      destruct (level2 i j Ii Ij) as [s' [R' [_ [Hs _]]]]. exists s'. split; auto.
+    + intros v. apply inv1_get; exact If.
+    + intros v. apply inv1_get; exact It.
+    + rewrite H. reflexivity.
+  - intros S p. unfold get3. apply (lift_get oksec (getk kIgnore (dget p))); auto using oksec_nil, oksec_dict.
+    + intros i j [i' [Ei Ii]] [j' [Ej Ij]]. inversion Ei; inversion Ej; subst i' j'.
+      destruct (level2 i j Ii Ij) as [s' [R' [_ [_ Hs]]]]. exists s'. split; auto.
+    + intros v. apply inv1_get; exact If.
+    + intros v. apply inv1_get; exact It.
+    + rewrite H. reflexivity.
+Qed.
